@@ -64,6 +64,14 @@ def scen_format_insane(rng):
             'external': {'topformflat': 'standin:topformflat'}}
 
 
+def scen_vanish(rng):
+    """a test case disappears from the user's directory while the pass runs (here: the test removes it through its absolute
+    path): the pass run ends with an error — and must still clean up after itself"""
+    return {'name': 'vanishing-test-case', 'tree': {'a.c': {'text': 'keep1\nx\ny\nz\n'}, 'b.c': {'text': 'q\n'}}, 'test_cases': ['a.c', 'b.c'],
+            'predicate': 'rm -f "@WD@/b.c"; grep -q keep1 a.c', 'groups': {'first': [], 'main': [{'name': 'LinePass'}], 'last': []},
+            'N': 2, 'timeout': 5, 'mode': 'pass', 'expect_any': True}
+
+
 def scen_die(rng):
     return {'name': 'die-on-pass-bug', 'tree': {'a.c': {'text': 'keep1\nx\n'}}, 'test_cases': ['a.c'], 'predicate': 'exit 0',
             'groups': {'first': [], 'main': [{'name': 'UnalteredPass'}], 'last': []}, 'N': 2, 'timeout': 5, 'mode': 'pass',
@@ -88,6 +96,15 @@ def scen_save_temps(rng):
     return s
 
 
+def scen_skip_sanity(rng):
+    """--skip-interestingness-test-check: everything else (backups included) as usual"""
+    s = scen_basic(rng)
+    s['name'] = 'skip-sanity'
+    s['skip_sanity'] = True
+    s['tree'] = {k: v for k, v in s['tree'].items() if not k.endswith('.orig')}
+    return s
+
+
 def scen_tidy(rng):
     s = scen_basic(rng)
     s['name'] = 'tidy'
@@ -100,7 +117,8 @@ def scen_modes(rng, real):
     on which it then makes progress and one on which no candidate is accepted; modes other than 0600"""
     spec = {'name': 'lines', 'arg': '0'} if real else {'name': 'LinePass', 'arg': 'chmod'}
     return {'name': 'modes:' + ('lines0' if real else 'stub'),
-            'tree': {'a.c': {'text': 'int keep1;\nint x;\nint y;\n', 'mode': '644'}, 'sub/b.c': {'text': 'int only;\n', 'mode': '640'}},
+            # modes with bits above 0777 too (sticky, set-gid): "their original values" means all of them
+            'tree': {'a.c': {'text': 'int keep1;\nint x;\nint y;\n', 'mode': '1644'}, 'sub/b.c': {'text': 'int only;\n', 'mode': '2640'}},
             'test_cases': ['a.c', 'sub/b.c'], 'predicate': 'grep -q keep1 a.c && grep -q only sub/b.c',
             'groups': {'first': [], 'main': [spec], 'last': []}, 'N': rng.choice([1, 2]), 'timeout': 5,
             'mode': rng.choice(['pass', 'reduce']), 'external': {'topformflat': 'standin:topformflat'}}
